@@ -213,6 +213,7 @@ package environment
 // none yet or it holds nothing (whatever the weight the new call is awaited at)
 //@   [C06 C08 C09] on mapupdate environment.Environment.callsPendingAwait : assert !(key in env.callsPendingAwait) || len(env.callsPendingAwait[key]) == 0
 //@   [C08 C09] loop 3 invariant #i >= -1 && #i < len(allWeights) && sortedW(allWeights) && sortedW(filteredWeights) && fresh(filteredWeights)
+//@   [C08 C09] loop 3 invariant disjoint(filteredWeights, allWeights)
 //@   [C08 C09] loop 3 invariant len(filteredWeights) > 0 ==> #i >= 0 && filteredWeights[len(filteredWeights) - 1] <= allWeights[#i]
 //@   [C08 C09] loop 4 invariant #i >= -1 && awaitedAt <= #i && tasksAt <= #i && sortedW(filteredWeights) && fresh(filteredWeights)
 
@@ -452,6 +453,12 @@ package environment
 //@   ghostvar crit bool = false
 //@   on aftercall .GetType : isIntErr = (result == pb.DeviceEventType_TASK_INTERNAL_ERROR)
 //@   on aftercall (*Manager).environment : envFound = (result1 == nil)
+// the environment that is told is the one that OWNS the task (the id label carried by a device event is fixed when the task
+// is launched and is stale for a task that was released and claimed again by another environment)
+//@   ghostvar tEnvAsked bool = false
+//@   ghostvar tEnv uid.ID = ""
+//@   on aftercall (*task.Task).GetEnvironmentId : tEnv = result ; tEnvAsked = true
+//@   on call (*Manager).environment when isIntErr : assert tEnvAsked && arg1 == tEnv
 //@   on call .UpdateState : told = told || arg0 == sm.ERROR
 //@   on aftercall .GetTaskTraits : asked = true ; crit = result.Critical
 //@   ghostvar hasRole bool = false
